@@ -661,17 +661,17 @@ fn enum_bulk(ctx: &Ctx, min_n: usize, max_n: usize, oor: bool) {
 
 pub fn run_c15(ctx: &Ctx) {
     let t = ctx.tier();
-    enum_partition(ctx, t.pick(7, 8), false, false);
+    enum_partition(ctx, t.pick(8, 9), false, false);
     ctx.run_proptest("partition", t.pick(20_000, 1_000_000), part_strategy(t.pick(60, 500)), &check_partition);
 }
 
 pub fn run_c02(ctx: &Ctx) {
     let t = ctx.tier();
-    enum_select(ctx, 1, t.pick(6, 7), false, false);
+    enum_select(ctx, 1, t.pick(7, 8), false, false);
     if ctx.stopped() {
         return;
     }
-    enum_bulk(ctx, 1, t.pick(5, 6), false);
+    enum_bulk(ctx, 1, t.pick(6, 6), false);
     ctx.run_proptest("select", t.pick(20_000, 600_000), sel_strategy(t.pick(80, 300), 0), &check_select);
     ctx.run_proptest("bulk", t.pick(20_000, 600_000), bulk_strategy(t.pick(80, 300), 0), &check_bulk);
 }
@@ -679,20 +679,20 @@ pub fn run_c02(ctx: &Ctx) {
 pub fn run_c16(ctx: &Ctx) {
     let t = ctx.tier();
     // out-of-range direction, every pivot sequence
-    enum_select(ctx, 0, t.pick(6, 7), true, false);
+    enum_select(ctx, 0, t.pick(7, 8), true, false);
     if ctx.stopped() {
         return;
     }
-    enum_bulk(ctx, 0, t.pick(5, 6), true);
+    enum_bulk(ctx, 0, t.pick(6, 7), true);
     if ctx.stopped() {
         return;
     }
-    enum_partition(ctx, t.pick(5, 6), true, true);
+    enum_partition(ctx, t.pick(7, 8), true, true);
     if ctx.stopped() {
         return;
     }
     // in-range direction on short arrays (length <= 2 counts as non-trivial), every pivot sequence
-    enum_select(ctx, 1, t.pick(4, 5), false, false);
+    enum_select(ctx, 1, t.pick(5, 6), false, false);
     enum_bulk(ctx, 1, t.pick(4, 5), false);
     // the empty array: partition / selection at 0
     for c in [PartCase { values: vec![], pivot: 0, stride: 1, offset: 0 }, PartCase { values: vec![], pivot: usize::MAX, stride: 1, offset: 1 }] {
